@@ -1,7 +1,12 @@
 import Thanos.Model.CachingBucket
+import Thanos.Lemmas.CachingBucket
 import Thanos.Generated.Facts
 /-
   C14 — Caching bucket is transparent for immutable objects.
+
+  Range reads (cachedGetRange / fetchMissingSubranges / mergeRanges / subrangesReader) are a
+  transliteration; the theorems are about every object, subrange size, sub-request limit, read
+  buffer size and every honest cache (any subset of what was stored: losses and evictions).
 -/
 namespace Thanos.CachingBucket
 
@@ -17,6 +22,142 @@ def C14_getRange_full (guard : Bool) : Prop :=
     S ≥ 1 → p ≥ 1 → len ≥ 1 → Honest obj cache →
     (getRange guard obj S maxSub cache p off len).out = .ok (bucketGetRange obj off len)
 
+/-- the core: a request that starts inside the object (with or without the guard) is served
+    transparently, and what it stores into the cache are true subranges under their exact keys -/
+theorem getRange_inside (guard : Bool) (obj : Bytes) (S maxSub : Nat) (cache : Nat → Nat → Option Bytes)
+    (p off len : Nat) (hS : S ≥ 1) (hp : p ≥ 1) (hlen : len ≥ 1) (hon : Honest obj cache)
+    (hoff : ¬ off ≥ obj.length) :
+    (getRange guard obj S maxSub cache p off len).out = .ok (bucketGetRange obj off len) ∧
+    StoresHonest obj (getRange guard obj S maxSub cache p off len).stores := by
+  unfold getRange
+  simp only [hoff, and_false, if_false]
+  have hS' : 0 < S := hS
+  -- the aligned window of the request
+  have hR := @roundup_spec (min (off + len) obj.length) S hS'
+  simp only at hR
+  obtain ⟨hEd, hEle, hElt⟩ := hR
+  have hSd := rounddown_dvd off S
+  have hSle := rounddown_le off S
+  generalize hend : (min (off + len) obj.length / S * S + if min (off + len) obj.length % S > 0 then S else 0) = endR at *
+  generalize hstart : off / S * S = startR at *
+  generalize hep : min (off + len) obj.length = endPos at *
+  have hep1 : off < endPos := by omega
+  have hep2 : endPos ≤ obj.length := by omega
+  have hlt : startR < endR := by omega
+  have hnp : ¬ (endR < startR) := by omega
+  simp only [hnp, if_false]
+  have hge : startR + S ≤ endR := aligned_step hSd hEd hlt
+  -- the last subrange of the request
+  have hrd : endR > obj.length → obj.length / S * S = endR - S := by
+    intro hgt
+    have a1 : endR - S ≤ obj.length / S * S :=
+      le_rounddown hS' (Nat.dvd_sub hEd (Nat.dvd_refl S)) (by omega)
+    have a2 : obj.length / S * S + S ≤ endR :=
+      aligned_step (rounddown_dvd _ S) hEd (by have := rounddown_le obj.length S; omega)
+    omega
+  have G : Geom S obj.length startR endR
+      (if endR > obj.length then ((obj.length / S * S : Nat) : Int) else (endR : Int) - S)
+      (if endR > obj.length then obj.length - obj.length / S * S else S) := by
+    refine ⟨hS', hSd, hEd, by omega, ?_, ?_, by omega⟩
+    · by_cases hgt : endR > obj.length
+      · simp only [hgt, if_true]; have := hrd hgt; omega
+      · simp only [hgt, if_false]
+    · by_cases hgt : endR > obj.length
+      · simp only [hgt, if_true]; have := hrd hgt; omega
+      · simp only [hgt, if_false]; omega
+  generalize (if endR > obj.length then ((obj.length / S * S : Nat) : Int) else (endR : Int) - S) = lastOff at *
+  generalize (if endR > obj.length then obj.length - obj.length / S * S else S) = lastLen at *
+  -- the cache hits are honest
+  generalize hh0 : List.filterMap (fun o => Option.map (fun b => (o, b)) (cache o (min (o + S) obj.length)))
+    (offsets S startR endR) = hits0
+  have hgood0 : GoodHits obj S hits0 := by
+    intro o b hob
+    rw [← hh0, List.mem_filterMap] at hob
+    obtain ⟨o', _, ho'⟩ := hob
+    cases hc : cache o' (min (o' + S) obj.length) with
+    | none => simp [hc] at ho'
+    | some b' =>
+      simp only [hc, Option.map_some, Option.some.injEq, Prod.mk.injEq] at ho'
+      obtain ⟨rfl, rfl⟩ := ho'
+      exact hon _ _ _ hc
+  have hmem0 : ∀ o, o ∈ offsets S startR endR → (cache o (min (o + S) obj.length)).isSome = true →
+      (hits0.lookup o).isSome = true := by
+    intro o ho hc
+    cases hcv : cache o (min (o + S) obj.length) with
+    | none => rw [hcv] at hc; cases hc
+    | some b =>
+      apply lookup_isSome_of_mem _ o b
+      rw [← hh0, List.mem_filterMap]
+      exact ⟨o, ho, by simp [hcv]⟩
+  -- after the fetch phase every subrange of the window is there
+  have key : ∃ f, (if hits0.length < (offsets S startR endR).length then
+        fetchAll obj S lastOff lastLen
+          (mergeUntil maxSub (endR + 2) S (mergeRanges 0
+            (List.map (fun o => ({ start := o, stop := o + S } : Rng))
+              (List.filter (fun o => (List.lookup o hits0).isNone) (offsets S startR endR)))))
+          { hits := hits0, reads := [], stores := [] }
+      else Except.ok { hits := hits0, reads := [], stores := [] }) = .ok f ∧
+      Complete obj S startR endR f.hits ∧ StoresHonest obj f.stores := by
+    have finish : ∀ f : Fetched, GoodHits obj S f.hits →
+        (∀ o, startR ≤ o → o < endR → S ∣ o → (f.hits.lookup o).isSome = true) →
+        Complete obj S startR endR f.hits := by
+      intro f hg hs o h1 h2 h3
+      have := hs o h1 h2 h3
+      cases hl : f.hits.lookup o with
+      | none => rw [hl] at this; cases this
+      | some b => rw [hg o b (lookup_mem _ _ _ hl)]
+    split
+    · -- some subranges are missing: merge and fetch
+      have hch0 := missing_chain hS' (fun o => (List.lookup o hits0).isNone) (endR - startR) startR endR hSd hEd
+      obtain ⟨c1, c2⟩ := mergeRanges_chain (limit := 0) _ hch0
+      obtain ⟨d1, d2⟩ := mergeUntil_chain (maxSub := maxSub) (endR + 2) S _ c1
+      obtain ⟨f, hf1, hf2, hf5, hf3, hf4⟩ := fetchAll_ok obj G _ ⟨hits0, [], []⟩
+        (fun m hm => by have := Chain.mem d1 hm; exact ⟨this.2.1, this.2.2.1, this.2.2.2.1, this.2.2.2.2⟩)
+        hgood0 (by intro e he; simp at he)
+      refine ⟨f, hf1, finish f hf2 ?_, hf5⟩
+      intro o h1 h2 h3
+      cases hl : (List.lookup o hits0).isSome with
+      | true => exact hf3 o hl
+      | false =>
+        have hmiss : covered (List.map (fun o => ({ start := o, stop := o + S } : Rng))
+            (List.filter (fun o => (List.lookup o hits0).isNone) (offsets S startR endR))) o := by
+          refine ⟨⟨o, o + S⟩, ?_, Nat.le_refl _, by simp only; omega⟩
+          apply List.mem_map.mpr
+          refine ⟨o, List.mem_filter.mpr ⟨(mem_offsets hS' hSd).mpr ⟨h1, h2, h3⟩, ?_⟩, rfl⟩
+          cases hv : List.lookup o hits0 with
+          | none => rfl
+          | some v => rw [hv] at hl; cases hl
+        obtain ⟨m, hm, hm1, hm2⟩ := d2 o (c2 o hmiss)
+        have hmv := Chain.mem d1 hm
+        exact hf4 m hm o ((mem_offsets hS' hmv.2.2.2.1).mpr ⟨hm1, hm2, h3⟩)
+    · -- everything was in the cache
+      rename_i hfull
+      refine ⟨⟨hits0, [], []⟩, rfl, finish _ hgood0 ?_, by intro e he; simp at he⟩
+      intro o h1 h2 h3
+      have ho := (mem_offsets hS' hSd).mpr ⟨h1, h2, h3⟩
+      apply hmem0 o ho
+      have := filterMap_full (fun o => Option.map (fun b => (o, b)) (cache o (min (o + S) obj.length)))
+        (offsets S startR endR) (by rw [hh0]; omega) o ho
+      cases hc : cache o (min (o + S) obj.length) with
+      | none => simp [hc] at this
+      | some b => rfl
+  obtain ⟨f, hf, hcomp, hsto⟩ := key
+  rw [hf]
+  simp only
+  refine ⟨?_, hsto⟩
+  have hfuel : endPos - off + 1 ≤ ((endPos : Int) - (off : Int)).toNat + 1 := by omega
+  rw [readAll_correct obj hS' hp f.hits hSd hcomp _ off endPos hSle (by omega) hEle hep2 hfuel]
+  rw [bucketGetRange_eq, hep]
+
+/-- C14, range reads, the code as it is now: transparent for ALL offsets and lengths (a request
+    starting at or past the end of the object is answered by the wrapped bucket itself). -/
+theorem C14_getRange : C14_getRange_full true := by
+  intro obj S maxSub cache p off len hS hp hlen hon
+  by_cases hoff : off ≥ obj.length
+  · unfold getRange
+    simp [hoff]
+  · exact (getRange_inside true obj S maxSub cache p off len hS hp hlen hon hoff).1
+
 /-- F14: the code as it was panics for an offset beyond the object (10-byte object, subrange
     size 16, GetRange(100, 5)), where the wrapped bucket returns an empty reader. -/
 theorem C14_unguarded_false : ¬ C14_getRange_full false := by
@@ -27,5 +168,110 @@ theorem C14_unguarded_false : ¬ C14_getRange_full false := by
       = .error .panic := by rfl
   rw [hp] at this
   cases this
+
+/-- … and was transparent exactly for requests that start inside the object. -/
+theorem C14_unguarded_partial (obj : Bytes) (S maxSub : Nat) (cache : Nat → Nat → Option Bytes)
+    (p off len : Nat) (hS : S ≥ 1) (hp : p ≥ 1) (hlen : len ≥ 1) (hon : Honest obj cache)
+    (hoff : off < obj.length) :
+    (getRange false obj S maxSub cache p off len).out = .ok (bucketGetRange obj off len) :=
+  (getRange_inside false obj S maxSub cache p off len hS hp hlen hon (by omega)).1
+
+/-- what a read stores into the cache is honest: under the key `(start, end)` exactly `obj[start:end]` -/
+theorem C14_stores_honest (obj : Bytes) (S maxSub : Nat) (cache : Nat → Nat → Option Bytes)
+    (p off len : Nat) (hS : S ≥ 1) (hp : p ≥ 1) (hlen : len ≥ 1) (hon : Honest obj cache) :
+    StoresHonest obj (getRange true obj S maxSub cache p off len).stores := by
+  by_cases hoff : off ≥ obj.length
+  · unfold getRange
+    simp only [hoff, and_self, if_true]
+    intro e he
+    simp at he
+  · exact (getRange_inside true obj S maxSub cache p off len hS hp hlen hon hoff).2
+
+/-! ### histories of reads with a lossy cache -/
+
+structure Read where
+  off : Nat
+  len : Nat
+  p : Nat
+
+/-- all that the caching bucket ever stored -/
+abbrev Entries := List ((Nat × Nat) × Bytes)
+
+/-- what the cache answers in one Fetch: any part of what was stored (entries may have been lost,
+    evicted, or simply not returned this time) -/
+def SubView (entries : Entries) (view : Nat → Nat → Option Bytes) : Prop :=
+  ∀ a b bs, view a b = some bs → ((a, b), bs) ∈ entries
+
+/-- run a history: every read sees some sub-view of the entries stored so far -/
+def runHistory (obj : Bytes) (S maxSub : Nat) :
+    List (Read × (Nat → Nat → Option Bytes)) → Entries → List (Except Err Bytes)
+  | [], _ => []
+  | (r, view) :: rest, entries =>
+    let res := getRange true obj S maxSub view r.p r.off r.len
+    res.out :: runHistory obj S maxSub rest (entries ++ res.stores)
+
+/-- the history is well formed: lengths and buffers are positive, every view is a sub-view of the
+    entries at that point of the run -/
+def HistOK (obj : Bytes) (S maxSub : Nat) :
+    List (Read × (Nat → Nat → Option Bytes)) → Entries → Prop
+  | [], _ => True
+  | (r, view) :: rest, entries =>
+    r.len ≥ 1 ∧ r.p ≥ 1 ∧ SubView entries view ∧
+      HistOK obj S maxSub rest (entries ++ (getRange true obj S maxSub view r.p r.off r.len).stores)
+
+/-- C14 for histories: whatever was read before and whatever the cache lost in between, every
+    read of the history returns the bytes of the wrapped bucket. -/
+theorem C14_history (obj : Bytes) (S maxSub : Nat) (hS : S ≥ 1) :
+    ∀ (h : List (Read × (Nat → Nat → Option Bytes))) (entries : Entries),
+      StoresHonest obj entries → HistOK obj S maxSub h entries →
+      runHistory obj S maxSub h entries = h.map fun rv => .ok (bucketGetRange obj rv.1.off rv.1.len)
+  | [], _, _, _ => rfl
+  | (r, view) :: rest, entries, he, ⟨h1, h2, h3, h4⟩ => by
+    have hon : Honest obj view := by
+      intro a b bs hv
+      exact he _ (h3 a b bs hv)
+    have hout := C14_getRange obj S maxSub view r.p r.off r.len hS h2 h1 hon
+    have hst := C14_stores_honest obj S maxSub view r.p r.off r.len hS h2 h1 hon
+    have he' : StoresHonest obj (entries ++ (getRange true obj S maxSub view r.p r.off r.len).stores) := by
+      intro e hm
+      rcases List.mem_append.mp hm with h | h
+      · exact he e h
+      · exact hst e h
+    simp only [runHistory, List.map_cons, hout]
+    rw [C14_history obj S maxSub hS rest _ he' h4]
+
+/-! ### regenerated facts -/
+
+/-- the guard in the source is the one of `getRange true`; ranges are merged when the gap is at
+    most `limit`; the merge loop starts at the subrange size and doubles; a fetched subrange is
+    kept (and stored) only when the key is not in `hits` yet -/
+theorem C14_source_facts :
+    Thanos.Facts.cachedGetRangeGuard = "offset >= attrs.Size" ∧
+    Thanos.Facts.mergeRangesCond = "(input[ix].start - input[last].end) <= limit" ∧
+    Thanos.Facts.mergeUntilLoop =
+      "limit := cfg.SubrangeSize; cfg.MaxSubRequests > 0 && len(missing) > cfg.MaxSubRequests; limit = limit * 2" ∧
+    Thanos.Facts.subrangeStoreCond = "_, ok := hits[key]; !ok" := by decide
+
+/-! ### non-vacuity -/
+
+-- an 18-byte object, subrange size 4, a cache that holds the 2nd and 4th subrange: the read is
+-- served from two cache hits and two bucket reads (merged with limit 0) and returns obj[1:17)
+example : (getRange true (List.range 18) 4 0
+    (fun a b => if (a, b) = (4, 8) ∨ (a, b) = (12, 16) then some (slice (List.range 18) a b) else none)
+    3 1 16).out = .ok (List.range 17 |>.drop 1) := by rfl
+example : (getRange true (List.range 18) 4 0
+    (fun a b => if (a, b) = (4, 8) ∨ (a, b) = (12, 16) then some (slice (List.range 18) a b) else none)
+    3 1 16).reads = [(0, 4), (8, 4), (16, 4)] := by rfl
+-- with at most one sub-request the three missing ranges are merged into one
+example : (getRange true (List.range 18) 4 1
+    (fun a b => if (a, b) = (4, 8) ∨ (a, b) = (12, 16) then some (slice (List.range 18) a b) else none)
+    3 1 16).reads = [(0, 20)] := by rfl
+example : Honest (List.range 18)
+    (fun a b => if (a, b) = (4, 8) ∨ (a, b) = (12, 16) then some (slice (List.range 18) a b) else none) := by
+  intro a b bs h
+  simp only at h
+  split at h
+  · simp only [Option.some.injEq] at h; exact h.symm
+  · cases h
 
 end Thanos.CachingBucket
